@@ -19,6 +19,15 @@ Check C12_same_result :
   stamp_determines (moments H T ([], w0) h) -> nul_free ((a, tr) :: confs h) -> nofail p ->
   fst (run_cached H T a tr p (fst (exec H T ([], w0) h)) (snd (exec H T ([], w0) h)))
   = run_plain H T a tr p (snd (exec H T ([], w0) h)).
+Check C12_same_result_hashed_moments :
+  forall (H : N -> bytes -> hashv) (T : tconf -> bytes -> option bytes)
+         (h : list event) (w0 : world) (a : N) (tr : option tconf) (R : Type) (p : prog R),
+  (forall w1 w2 id i1 i2, In w1 (run_moments H T ([], w0) h) -> In w2 [snd (exec H T ([], w0) h)] ->
+     inode_of w1 id = Some i1 -> inode_of w2 id = Some i2 ->
+     code_ms (i_mtime i1) = code_ms (i_mtime i2) -> nlen (i_data i1) = nlen (i_data i2) -> i_data i1 = i_data i2) ->
+  nul_free ((a, tr) :: confs h) -> nofail p ->
+  fst (run_cached H T a tr p (fst (exec H T ([], w0) h)) (snd (exec H T ([], w0) h)))
+  = run_plain H T a tr p (snd (exec H T ([], w0) h)).
 Check C12_same_result_rounded_down :
   forall (H : N -> bytes -> hashv) (T : tconf -> bytes -> option bytes)
          (h : list event) (w0 : world) (a : N) (tr : option tconf) (R : Type) (p : prog R),
@@ -39,3 +48,9 @@ Check C12_checkers_sound : forall ws,
   (stamp_determines_b ws = true -> stamp_determines ws) /\
   (mtime_determines_b ws = true -> mtime_determines ws) /\
   (preepoch_fraction_b ws = false -> preepoch_whole_ms ws).
+Check C12_KC4_witness :
+  stepwise_b (moments Hx Tid ([], empty_world) hRet) = true /\
+  stamp_determines_b (moments Hx Tid ([], empty_world) hRet) = false /\
+  nofail (probe 1 0 3) /\
+  cached_answer Hx Tid hRet 0 None (probe 1 0 3) = RHash (Hx 0 [97; 98; 99]) /\
+  plain_answer Hx Tid hRet 0 None (probe 1 0 3) = RHash (Hx 0 [97; 98; 100]).
